@@ -1,6 +1,7 @@
 """C36 -- fetching returns only verified files and uses every allowed attempt (DESIGN.md section 4, C36)."""
 import itertools
 import os
+import types
 import z3
 from pyvc.api import Task, call, Interp, LoopSpec, Contract
 from pyvc.interp import PyRaise
@@ -124,6 +125,37 @@ def t_fetch(ex):
     ex.oblige(f"{P}.raises.never_while_a_verified_file_is_in_place", g.st != GOOD, kind="exceptional-postcondition")
 
 
+def t_get_path(ex):
+    """fetcher.get_path (what a target without URIs gets): the path in distdir exactly when _verify accepts the file there; whatever _verify
+    objects to -- missing, too small, a wrong checksum -- never yields a path"""
+    import pkgcore.fetch.custom as C
+    from pkgcore.fetch import errors
+    from pyvc.interp import PyRaise
+    verdict = ("accepted", "missing", "too_small", "not_resumable", "chksum")[ex.choose(5)]
+    P = f"C36.fetcher.get_path[_verify: {verdict}]"
+    it = Interp(ex, label=P)
+    seen = []
+
+    def m_verify(it_, self_, path, target, *a, **k):
+        seen.append(path)
+        if verdict == "accepted":
+            return None
+        raise PyRaise({"missing": errors.MissingDistfile("f.tar"), "too_small": errors.FetchFailed("f.tar", "file is too small", resumable=True),
+                       "not_resumable": errors.FetchFailed("f.tar", "size exceeds", resumable=False),
+                       "chksum": errors.ChksumFailure("f.tar", chksum="sha256", expected=1, value=2)}[verdict])
+    it.models[C.fetcher._verify] = m_verify
+    import pkgcore.fetch.base as B
+    it.models[B.fetcher._verify] = m_verify
+    me = SObj(C.fetcher, {"distdir": "/distdir"})
+    target = types.SimpleNamespace(filename="f.tar", uri=(), chksums={"size": 10})
+    out = call(it, it.target(FILE, "fetcher.get_path"), me, target)
+    ex.oblige(f"{P}.ensures.verifies_the_file_in_distdir", seen == ["/distdir/f.tar"])
+    if verdict == "accepted":
+        ex.oblige(f"{P}.ensures.hands_out_the_path", not out.raised and out.value == "/distdir/f.tar")
+    else:
+        ex.oblige(f"{P}.ensures.never_a_path_for_a_file_that_does_not_verify", out.raised or out.value is None)
+
+
 def t_verify(ex):
     """fetch.base.fetcher._verify against the file on disk (size -1 = absent) -- the contract the proof of fetch() relies on, here proved of the real
     function: what counts as verified, as a resumable partial file, as unusable, as a checksum failure"""
@@ -210,11 +242,11 @@ def _simulate(attempts, n_uris, outcomes, initial, with_chksums, good=b"complete
             put(st)
             return status
         f = custom.fetcher(distdir=d, command="fetch ${URI} ${FILE}", resume_command="resume ${URI} ${FILE}", userpriv=False, attempts=attempts)
-        target = fetchable("f.tar", uri=[f"http://h/{i}" for i in range(n_uris)], chksums=chk)
+        target = fetchable("f.tar", uri=[f"http://h/{i}" for i in range(n_uris)] if isinstance(n_uris, int) else n_uris, chksums=chk)
         with mock.patch("pkgcore.fetch.custom.spawn_bash", side_effect=fake_spawn):
             try:
-                r = f.fetch(target)
-                res = "returned"
+                r = f(target)     # the fetcher's entry point: fetch() for a target with URIs, get_path() for one without
+                res = "returned" if r is not None else "no path (None)"
             except errors.FetchError as e:
                 res = type(e).__name__
             except StopIteration:
@@ -242,6 +274,22 @@ def enum_fetch(seed):
                         fails.append({"model": {"attempts": attempts, "n_uris": n_uris, "initial": STATE_NAMES[initial],
                                                 "outcomes": [(STATE_NAMES[s], rc) for s, rc in outs[:attempts]]},
                                       "detail": f"attempts={attempts} uris={n_uris} initial={STATE_NAMES[initial]} outcomes={[(STATE_NAMES[s], rc) for s, rc in outs[:attempts]]}: {bad}"})
+    # a target without any URI (fetch-restricted, or already mirrored away): the file in place is handed out exactly when it verifies, nothing is spawned
+    for good in (b"complete file content for checksum", b""):
+        for uri in ((), None):
+            for initial in [ABSENT, EMPTY, CORRUPT, GOOD] + ([PARTIAL] if good else []):
+                cases += 1
+                spawns = []
+                res, good_now, data = _simulate(2, uri, [(GOOD, 0)] * 4, initial, True, good=good, spawns=spawns)
+                bad = None
+                if res == "returned" and not good_now:
+                    bad = "handed out a path whose file does not verify"
+                elif res != "returned" and good_now:
+                    bad = f"answered {res} although a verifying file is in place"
+                elif spawns:
+                    bad = "spawned a fetch command for a target without URIs"
+                if bad and len(fails) < 3:
+                    fails.append({"model": {"uri": uri, "recorded_size": len(good), "initial": STATE_NAMES[initial]}, "detail": f"target without URIs (uri={uri!r}), recorded size {len(good)}, {STATE_NAMES[initial]} file in place: {bad}"})
     # 0-byte partial files, distfiles whose recorded size is 0, targets without checksums; and which command each spawn used:
     # the resume command exactly when a file smaller than the recorded size is in place, the plain one otherwise
     for good, with_chk in ((b"complete file content for checksum", True), (b"", True), (b"complete file content for checksum", False)):
@@ -275,6 +323,7 @@ def enum_fetch(seed):
 
 def tasks():
     return [Task("C36.fetcher.fetch", t_fetch, [(FILE, "fetcher.fetch")], enumerate=enum_fetch),
+            Task("C36.fetcher.get_path", t_get_path, [(FILE, "fetcher.get_path")]),
             Task("C36._verify", t_verify, [("src/pkgcore/fetch/base.py", "fetcher._verify")])]
 
 
